@@ -146,6 +146,18 @@ pub fn base_cfg() -> Cfg
     }
 }
 
+/// Thorough tier: larger programs (more actors, longer scripts, more trees per world).
+pub fn scale_up(c: &mut Cfg)
+{
+    c.pre_insts.1 += 3;
+    c.max_created += 3;
+    c.runs_per_inst.1 += 1;
+    c.ops_per_script.1 += 2;
+    c.steps.1 += c.steps.1 / 2 + 2;
+    c.ops_per_batch.1 += 2;
+    if c.frame_systems.1 > 0 { c.frame_systems.1 += 2; }
+}
+
 pub fn profile(name: &str) -> Cfg
 {
     let mut c = base_cfg();
@@ -529,6 +541,8 @@ pub fn generate(seed: u64, base: &Cfg) -> Program
         if r.chance(15) { c.pct_fallible = 0; }
         if r.chance(20) { c.pct_self_target = 80; }
         if r.chance(10) { c.initial_bundle.1 += 3; c.pre_insts.1 += 3; }
+        // now and then any profile runs inside an App with frame systems and updates
+        if c.frame_systems.1 == 0 && !c.signals && r.chance(8) { c.frame_systems = (1, 3); c.pct_update_step = c.pct_update_step.max(25); }
     }
     let nslots = r.range(c.slots.0, c.slots.1) as u8;
     let mut prog = Program::default();
